@@ -28,6 +28,7 @@ UBASE = dict(
     AllowClose=False, AllowTake=True, AllowRemove=True, AllowAdd=True, AllowCancel=True, AllowDropPool=False,
 )
 USTRUCT = ["TypeOK"]
+SBASE = dict(K=1, NInteract=2, MaxPending=1, AllowPanic=True, AllowCancel=True)
 
 
 def cfg_text(consts, invariants=(), properties=(), spec="Spec", constraint=None, base=None):
@@ -261,6 +262,25 @@ PROPS["C10"] = {
              {"hcfg": {"pool_level": True, "pool_wait": "timed", "pool_cto": "finite", "pool_rto": "finite"}}),
             ("u_rt", C(MaxSize=2, NObjs=2, Budget=4, GetModes=["try", "bl", "timed"], HasRuntime=True), True, U),
             ("u_nort", C(MaxSize=1, Preload=1, NObjs=2, Budget=4, GetModes=["try", "bl", "timed"], HasRuntime=False), True, U),
+        ],
+    },
+}
+
+PROPS["C14"] = {
+    "kind": "sync",
+    "invariants": ["Inv_DtorOnce", "Inv_DtorEventually", "Inv_UseWhilePresent", "Inv_PanicReported", "Inv_NoAborted"],
+    "actprops": ["Act_DtorAfterClosures", "Act_PoisonSticks"],
+    "preds": ["S14a", "S14b", "S14c", "S14d", "S14e"],
+    "obs_sample": {"quick": 1, "thorough": 1},
+    "configs": {
+        "quick": [
+            ("k1", C(K=1, NInteract=3, MaxPending=1), True),
+            ("k2", C(K=2, NInteract=3, MaxPending=2), True),
+        ],
+        "thorough": [
+            ("k1", C(K=1, NInteract=4, MaxPending=2), True),
+            ("k2", C(K=2, NInteract=4, MaxPending=2), True),
+            ("k3", C(K=3, NInteract=4, MaxPending=3), True),
         ],
     },
 }
